@@ -17,8 +17,12 @@ def run(thy, vars_, prop, steps):
     context.set_context(thy, vars=vars_)
     st = server.parse_init_state(prop)
     for s in steps:
-        method.apply_method(st, s)
-        st.check_proof(compute_only=True)      # what ProofState.parse_steps does after every step
+        try:
+            method.apply_method(st, s)
+            st.check_proof(compute_only=True)      # what ProofState.parse_steps does after every step
+        except Exception as e:
+            print('  step %s REJECTED: %s %s' % (s['method_name'], type(e).__name__, str(e)[:100]))
+            break
     return st
 
 
